@@ -214,9 +214,10 @@ class Effects(object):
             changed = False
             for n in nts:
                 owns = []
-                for fname in sorted(set(p.funcname for p in g.productions if p.name == n)):
-                    m, f = g.action_funcs[fname]
-                    owns.append(self._action_result(m, f, n))
+                for p in g.productions:
+                    if p.name == n:
+                        m, f = g.action_funcs[p.funcname]
+                        owns.append(self._action_result(m, f, p))
                 new = joinall(owns)
                 if new != cur[n]:
                     cur[n] = new
@@ -224,10 +225,12 @@ class Effects(object):
             if not changed:
                 break
 
-    def _action_result(self, m, f, nt):
-        """Ownership of p[0] after the action (join over all stores)."""
+    def _action_result(self, m, f, prod):
+        """Ownership of p[0] after the action for one production alternative (join over all stores)."""
         key = (m.name, m.qualname_of(f))
-        interp = _Interp(self, key, m, f, [UNKNOWN, _PSym(self, m, f)], (), record=False)
+        args = self.default_args(key)
+        args = [(_PSym(self, m, f, prod) if isinstance(a, _PSym) else a) for a in args]
+        interp = _Interp(self, key, m, f, args, (), record=False)
         interp.run()
         return interp.p0 if interp.p0 is not None else IMMUT
 
@@ -293,16 +296,20 @@ class _SelfOwn(Own):
 
 class _PSym(Own):
     """The YaccProduction parameter of a grammar action: p[k] has the ownership of the k-th symbol."""
-    __slots__ = ('eff', 'module', 'func')
+    __slots__ = ('eff', 'module', 'func', 'prod')
 
-    def __init__(self, eff, module, func):
+    def __init__(self, eff, module, func, prod=None):
         Own.__init__(self, ['fresh'])
         self.eff = eff
         self.module = module
         self.func = func
+        self.prod = prod        # a specific production alternative (then len(p) is known), or None = all of them
 
     def key(self, depth=0):
-        return (('psym', self.func.name), None)
+        return (('psym', self.func.name, self.prod.index if self.prod is not None else None), None)
+
+    def plen(self):
+        return len(self.prod.syms) + 1 if self.prod is not None else None
 
     def sym_own(self, k):
         g = self.eff.grammar
@@ -310,6 +317,8 @@ class _PSym(Own):
             return HOST
         owns = []
         for p in g.productions:
+            if self.prod is not None and p is not self.prod:
+                continue
             if p.funcname == self.func.name:
                 if k is None:
                     for s in p.syms:
@@ -435,6 +444,13 @@ class _Interp(object):
                 self.ret = join(self.ret, v)
         elif isinstance(s, ast.If):
             self.expr(s.test, env)
+            verdict = self.static_test(s.test, env)
+            if verdict is True:
+                self.block(s.body, env)
+                return
+            if verdict is False:
+                self.block(s.orelse, env)
+                return
             e1 = dict(env)
             e2 = dict(env)
             self.block(s.body, e1)
@@ -511,6 +527,50 @@ class _Interp(object):
             self.expr(s.subject, env)
             for c in s.cases:
                 self.block(c.body, env)
+
+    def static_test(self, t, env):
+        """Branch decisions that are fixed by the production alternative: comparisons of len(p) with constants."""
+        if isinstance(t, ast.UnaryOp) and isinstance(t.op, ast.Not):
+            v = self.static_test(t.operand, env)
+            return None if v is None else (not v)
+        if isinstance(t, ast.BoolOp):
+            vals = [self.static_test(v, env) for v in t.values]
+            if isinstance(t.op, ast.And):
+                if any(v is False for v in vals):
+                    return False
+                return True if all(v is True for v in vals) else None
+            if any(v is True for v in vals):
+                return True
+            return False if all(v is False for v in vals) else None
+        if isinstance(t, ast.Compare) and len(t.ops) == 1:
+            l, r = t.left, t.comparators[0]
+            n = None
+            c = None
+            for a, b in ((l, r), (r, l)):
+                if isinstance(a, ast.Call) and isinstance(a.func, ast.Name) and a.func.id == 'len' and len(a.args) == 1 \
+                        and isinstance(a.args[0], ast.Name) and isinstance(env.get(a.args[0].id), _PSym) \
+                        and isinstance(b, ast.Constant) and isinstance(b.value, int):
+                    n = env[a.args[0].id].plen()
+                    c = b.value
+                    flipped = a is r
+            if n is None or c is None:
+                return None
+            op = t.ops[0]
+            if flipped:
+                n, c = c, n
+            if isinstance(op, ast.Eq):
+                return n == c
+            if isinstance(op, ast.NotEq):
+                return n != c
+            if isinstance(op, ast.Lt):
+                return n < c
+            if isinstance(op, ast.LtE):
+                return n <= c
+            if isinstance(op, ast.Gt):
+                return n > c
+            if isinstance(op, ast.GtE):
+                return n >= c
+        return None
 
     def assign(self, t, v, env, stmt):
         if isinstance(t, ast.Name):
